@@ -26,7 +26,7 @@ ASSUMPTIONS = [
 ]
 
 TABLES = 0x50000
-TABLES_SZ = 0x4000
+TABLES_SZ = 0x8000
 
 
 def plan(tier, seed):
@@ -109,6 +109,34 @@ def _vmsa_tables(rng, dev, mode):
         elif r < 0.26:
             d = (d & ~(0xF << 2)) | rng.getrandbits(4) << 2          # memory attributes
         G.set_data(dev, 0x3000 + 8 * i, d.to_bytes(8, 'little'))
+    if rng.random() < 0.45:
+        # three-level long-descriptor tables for the first GiB: L1[0] -> level-2 table at +0x4000 (2 MiB blocks, entry 0 -> level-3 table at
+        # +0x5000 with 4 KiB identity pages for the low 2 MiB, where every device of the board lives); table attributes and page
+        # permissions seeded, a few entries invalid or random
+        def tbl(addr):
+            return addr | rng.choice([0, 0, 0, rng.getrandbits(5)]) << 59 | 0b11
+        G.set_data(dev, 0x3000, tbl(TABLES + 0x4000).to_bytes(8, 'little'))
+        for i in range(512):
+            r = rng.random()
+            d = i << 21 | 1 << 10 | rng.choice([1, 1, 0, 3]) << 6 | rng.getrandbits(3) << 2 | 0b01
+            if r < 0.03:
+                d = rng.getrandbits(64)
+            elif r < 0.06:
+                d = 0
+            G.set_data(dev, 0x4000 + 8 * i, d.to_bytes(8, 'little'))
+        G.set_data(dev, 0x4000, tbl(TABLES + 0x5000).to_bytes(8, 'little'))
+        for i in range(512):
+            r = rng.random()
+            d = i << 12 | 1 << 10 | rng.choice([1, 1, 1, 0, 3, 2]) << 6 | rng.getrandbits(3) << 2 | rng.getrandbits(2) << 53 | 0b11
+            if r < 0.02:
+                d = rng.getrandbits(64)
+            elif r < 0.04:
+                d &= ~1                       # invalid
+            elif r < 0.06:
+                d &= ~2                       # reserved at level 3
+            elif r < 0.08:
+                d &= ~(1 << 10)               # access flag clear
+            G.set_data(dev, 0x5000 + 8 * i, d.to_bytes(8, 'little'))
 
 
 def regime(rng, cfg, first=False):
